@@ -2397,4 +2397,18 @@ example : ((run (demoTwoBatches.take 8)).burned.map (·.id)) = [1] ∧
     (endBlock (run (demoTwoBatches.take 7)) (Fault.at tBurn 2) 7 1001 [1] []).2.2 = [.ok, .rejected] ∧
     ((run demoTwoBatches).burned.map (·.id)) = [1] ∧ (run demoTwoBatches).lastObserved = 2 := by decide
 
+/-! ### chain export / import of the bridge module (not an `Op`: the property quantifies over messages and blocks) -/
+
+/-- **reimport_keeps_the_bridge.** Exporting the bridge's genesis and starting again from it keeps the pool, the open batches,
+every balance, the escrow, the supply, the id counters, the tax and limit settings, the oracle cursor and the stored claims
+(what C01 and C15's cost clauses speak about); it forgets the window usage records and the archive of issued checkpoints
+(C15 / C13: recorded in their notes and in known finding C13-archive-not-exported). -/
+theorem reimport_keeps_the_bridge (s : St) :
+    (reimport s).pool = s.pool ∧ (reimport s).batches = s.batches ∧ (reimport s).bal = s.bal ∧
+    (reimport s).escrow = s.escrow ∧ (reimport s).supply = s.supply ∧ (reimport s).lastTx = s.lastTx ∧
+    (reimport s).lastBatch = s.lastBatch ∧ (reimport s).tax = s.tax ∧ (reimport s).limit = s.limit ∧
+    (reimport s).lastObserved = s.lastObserved ∧ (reimport s).claims = s.claims ∧
+    (reimport s).usage = (fun _ => none) ∧ (reimport s).archive = [] :=
+  ⟨rfl, rfl, rfl, rfl, rfl, rfl, rfl, rfl, rfl, rfl, rfl, rfl, rfl⟩
+
 end Paloma.Bridge
